@@ -48,18 +48,23 @@ def _create_override_tuple(key, has_value = True):
   retval = ConfigParserOverrideTuple(section = section, key = key, value = value)
   return retval
 
+def _override_dict_key(over_tuple):
+  # Option keys match irrespective of embedded whitespace, two spellings of one key are the same item.
+  key = over_tuple.key.strip().replace(' ', '').replace('\t', '')
+  return (over_tuple.section, key)
+
 def _make_config_parser(cfg_file, overrides, additional, remove, species, exclude_flag):
   override_dict = collections.OrderedDict()
   if not overrides is None:
     for override in itertools.chain.from_iterable(overrides):
       over_tuple = _create_override_tuple(override)
-      k = (over_tuple.section, over_tuple.key)
+      k = _override_dict_key(over_tuple)
       override_dict[k] = over_tuple
 
   if not remove is None:
     for override in itertools.chain.from_iterable(remove):
       over_tuple = _create_override_tuple(override, False)
-      k = (over_tuple.section, over_tuple.key)
+      k = _override_dict_key(over_tuple)
       override_dict[k] = over_tuple
 
   overrides_list = list(override_dict.values())
